@@ -9,6 +9,9 @@
 (*  fsdiff       FSArray.diff(a, b, ignore_formatting)                     *)
 (*  ppevent      events.pp_event(name) for key names of the two tables     *)
 (*  fseq         assertFSArraysEqual[IgnoringFormatting](a, b), simple_format *)
+(*  normslice    formatstring.normalize_slice(length, index)               *)
+(*  evrepr       repr / name / aliases of WindowChangeEvent, SigIntEvent,  *)
+(*               PasteEvent                                                *)
 (***************************************************************************)
 EXTENDS ColorStr
 
@@ -104,8 +107,45 @@ JudgeFsEq(e) ==
      ELSE IF e.fmt # FlattenSeq([k \in 1..Len(e.a) |-> IF k = 1 THEN RowStr(e.a[k]) ELSE <<10>> \o RowStr(e.a[k])]) THEN V("FsEq.SimpleFormat", FALSE)
      ELSE V("ok", TRUE)
 
+(* ------------------------------------------------------------- normslice *)
+\* formatstring.normalize_slice(length, index), as coded: an int index wraps once and must land inside; a slice gets its
+\* Nones filled in and its negative bounds wrapped and clamped at 0 - nothing is clamped at the top - and a step, of
+\* whatever value, is refused only after all that.   e.ix = <<"int", i>> or <<"slice", a, an, b, bn, hasStep>>
+NormRef(n, ix) ==
+  IF ix[1] = "int"
+  THEN LET i == IF ix[2] < 0 THEN ix[2] + n ELSE ix[2]
+       IN IF i < 0 \/ i >= n THEN <<"exc", "IndexError", 0, 0>> ELSE <<"ok", "", i, i + 1>>
+  ELSE LET a0 == IF ix[3] = 1 THEN 0 ELSE ix[2]
+           b0 == IF ix[5] = 1 THEN n ELSE ix[4]
+           a1 == IF a0 < 0 THEN Max2(0, n + a0) ELSE a0
+           b1 == IF b0 < 0 THEN Max2(0, n + b0) ELSE b0
+       IN IF ix[6] = 1 THEN <<"exc", "NotImplementedError", 0, 0>> ELSE <<"ok", "", a1, b1>>
+JudgeNormSlice(e) ==
+  IF <<e.res.k, e.res.t, e.res.a, e.res.b>> # NormRef(e.n, e.ix) THEN V("NormSlice.Result", FALSE) ELSE V("ok", TRUE)
+
+(* --------------------------------------------------------------- evrepr *)
+\* repr / name of the event classes: WindowChangeEvent(rows, columns[, cursor_dy]), SigIntEvent(), PasteEvent() with
+\* key names free of quotes and backslashes (so Python's repr of each is the name between apostrophes)
+Dec(n) == IF n < 0 THEN <<45>> \o Digits(0 - n) ELSE Digits(n)
+Str(s) == [k \in 1..Len(s) |-> CASE s[k] = "<" -> 60 [] s[k] = ">" -> 62 [] s[k] = " " -> 32 [] s[k] = "(" -> 40 [] s[k] = ")" -> 41
+                                  [] s[k] = "," -> 44 [] s[k] = ":" -> 58 [] s[k] = "_" -> 95 [] s[k] = "[" -> 91 [] s[k] = "]" -> 93 [] s[k] = "'" -> 39
+                                  [] OTHER -> 0]
+EvReprRef(e) ==
+  CASE e.cls = "winch" -> <<60>> \o e.wc \o <<32, 40>> \o Dec(e.rows) \o <<44, 32>> \o Dec(e.cols) \o <<41>>
+                          \o (IF e.hasdy = 1 THEN <<32>> \o e.cdy \o <<58, 32>> \o Dec(e.dy) ELSE <<>>) \o <<62>>
+    [] e.cls = "sigint" -> e.lit
+    [] e.cls = "paste" -> e.lit \o <<91>> \o FlattenSeq([k \in 1..Len(e.keys) |-> (IF k = 1 THEN <<>> ELSE <<44, 32>>) \o <<39>> \o e.keys[k] \o <<39>>]) \o <<93, 62>>
+EvNameRef(e) == IF e.cls = "winch" THEN <<60>> \o e.wc \o <<62>> ELSE EvReprRef(e)
+JudgeEvRepr(e) ==
+  IF e.repr # EvReprRef(e) THEN V("EvRepr.Repr", FALSE)
+  ELSE IF e.name # EvNameRef(e) THEN V("EvRepr.Name", FALSE)
+  ELSE IF e.cls = "winch" /\ e.xywh # <<e.cols, e.rows, e.cols, e.rows>> THEN V("EvRepr.Aliases", FALSE)
+  ELSE V("ok", TRUE)
+
 JudgeExtra(e) ==
   CASE e.op = "text2array" -> JudgeText2Array(e)
+    [] e.op = "normslice" -> JudgeNormSlice(e)
+    [] e.op = "evrepr" -> JudgeEvRepr(e)
     [] e.op = "fsdiff" -> JudgeFsDiff(e)
     [] e.op = "ppevent" -> JudgePpEvent(e)
     [] e.op = "fseq" -> JudgeFsEq(e)
